@@ -220,10 +220,12 @@ def Prod.step {κ : Type} [DecidableEq κ] (p : Prod κ V) (k : κ) (l : Label V
   | none => none
 
 def Prod.writeOp {κ : Type} [DecidableEq κ] (p : Prod κ V) (k : κ) (v : V) : Prod κ V :=
-  fun k' => if k' = k then Chan.writeOp (p k) v else p k'
+  let s' := Chan.writeOp (p k) v      -- (bound outside the function: computed once by the twin)
+  fun k' => if k' = k then s' else p k'
 
 def Prod.readOp {κ : Type} [DecidableEq κ] (p : Prod κ V) (k : κ) : Prod κ V × Option V :=
-  (fun k' => if k' = k then (Chan.readOp (p k)).1 else p k', (Chan.readOp (p k)).2)
+  let r := Chan.readOp (p k)
+  (fun k' => if k' = k then r.1 else p k', r.2)
 
 /-- read the given readers in order, once each (the body of a `read_commands` /
     `on_start_processing`); returns what each read produced -/
